@@ -111,8 +111,27 @@ def run(ctx):
                            C + "[iteration bound]", "loop bounded by maximum_number_of_iterations", L.loc, derived=L.iter)
         # the returned value is the iterate
         r = it2.call_function(f, [w, d, g, maxiter, tol], {}, None)
-        ctx.expect(fname(T.to_term(r)) == "loopfix" and iterate is not None and T.to_term(r).args[0] == iterate[1],
-                   "R07.2", C + "[result]", "the function returns the final iterate", f.loc(), derived=r)
+        rt = T.to_term(r)
+        leaves = []
+
+        def collect(t):
+            if fname(t) == "ite":
+                collect(t.args[1])
+                collect(t.args[2])
+            else:
+                leaves.append(t)
+        collect(rt)
+        okres = iterate is not None and bool(leaves)
+        for lf in leaves:
+            if fname(lf) == "loopfix" and iterate is not None and lf.args[0] == iterate[1]:
+                continue
+            # value of the iterate on the path that leaves the loop early
+            states = [x for x in T.find_ops(lf, "loopstate") if iterate is not None and x.args[0] == iterate[1]
+                      and x.args[2] == T.Str(iterate[0])]
+            if not states:
+                okres = False
+        ctx.expect(okres, "R07.2", C + "[result]", "the function returns the iterate (on early exit: the iterate just computed)",
+                   f.loc(), derived=rt)
     # defaults
     b = it2.bind(f, [w, d], {}, __import__("osuverif.interp", fromlist=["Env"]).Env(it2, f, f.module))
     ctx.expect(b.get("tolerance") == sp.Rational(1, 1000), "R07.2", C + "[default tolerance]",
